@@ -725,6 +725,94 @@ func genSched(seed uint64, prop, tier, mode string) *Plan {
 		p.Clients = append(p.Clients, ops)
 	}
 
+	// ---- one key, several certificates, several configurations: distinct certificates carrying the same
+	// Fermat-weak RSA key go to different clients, and two shared registries hold round counts on either
+	// side of the number of rounds that factors that key - concurrent calls on the same key whose correct
+	// verdicts differ
+	if shared >= 2 && ((race && g.Chance(0.35)) || (!race && g.Chance(0.15))) {
+		var cand []int
+		for i, e := range fermatPool {
+			if e.K >= 8 && e.K <= 4000 {
+				cand = append(cand, i)
+			}
+		}
+		wi := pick(g, cand)
+		K0 := fermatPool[wi].K
+		lo := CfgSpec{Class: "option", Text: fmt.Sprintf("[e_rsa_fermat_factorization]\nRounds = %d\n", K0-1), Targets: []string{"e_rsa_fermat_factorization"}, Via: "string"}
+		hi := CfgSpec{Class: "option", Text: fmt.Sprintf("[e_rsa_fermat_factorization]\nRounds = %d\n", K0+2), Targets: []string{"e_rsa_fermat_factorization"}, Via: "string"}
+		p.Cfgs = append(p.Cfgs, lo, hi)
+		ciLo, ciHi := len(p.Cfgs)-2, len(p.Cfgs)-1
+		rLo, rHi := 0, 1+g.Intn(shared-1)
+		if !hg.mregs[rHi].Sel["e_rsa_fermat_factorization"] {
+			rHi = 0
+			rLo = -1
+		}
+		if rLo >= 0 {
+			p.Ops = append(p.Ops, Op{K: "loadcfg", Cfg: ciLo}, Op{K: "setcfg", Reg: rLo, Cfg: ciLo}, Op{K: "loadcfg", Cfg: ciHi}, Op{K: "setcfg", Reg: rHi, Cfg: ciHi})
+			synthForceWeakKey, synthForceWeakIdx = true, wi
+			nC := g.Range(2, K)
+			for j, c := range g.subset(K, nC) {
+				o := synthCert(g, idx)
+				if o == nil {
+					continue
+				}
+				p.Objects = append(p.Objects, *o)
+				oi := len(p.Objects) - 1
+				var burst []Op
+				for t := g.Range(2, 5); t > 0; t-- {
+					r := rLo
+					if (j+t)%2 == 0 {
+						r = rHi
+					}
+					burst = append(burst, Op{K: "lint", Obj: oi, Reg: r, Fresh: g.Chance(0.5), Note: "one-key"})
+				}
+				p.Clients[c] = append(burst, p.Clients[c]...)
+			}
+			synthForceWeakKey, synthForceWeakIdx = false, -1
+			p.Knobs["one_key_rounds"] = K0
+		}
+	}
+
+	// ---- scale: in a few runs several clients open with an object of unusual size at the same time -
+	// certificates with thousands of names, revocation lists with tens of thousands of entries
+	// (whatever rules and helpers budget, pool or memoise per element is exercised at volume, in parallel)
+	if (race && g.Chance(0.14)) || (fg && g.Chance(0.06)) {
+		kindOfScale := pick(g, []string{"names", "names", "crl"})
+		if fg {
+			kindOfScale = "names"
+		}
+		nC := g.Range(2, 4)
+		if kindOfScale == "crl" {
+			nC = g.Range(5, K)
+		}
+		if nC > K {
+			nC = K
+		}
+		p.Knobs["scale"] = kindOfScale
+		for _, c := range g.subset(K, nC) {
+			var o *ObjSpec
+			if kindOfScale == "names" {
+				synthForceManyNames = pick(g, []int{2500, 5000, 5000})
+				o = synthCert(g, idx)
+				synthForceManyNames = 0
+			} else {
+				synthForceCRLEntries = pick(g, []int{20000, 45000, 70000})
+				o = synthBigCRL(g, idx)
+				synthForceCRLEntries = 0
+			}
+			if o == nil {
+				continue
+			}
+			p.Objects = append(p.Objects, *o)
+			oi := len(p.Objects) - 1
+			burst := []Op{{K: "lint", Obj: oi, Reg: 0, Note: "scale"}}
+			if g.Chance(0.5) {
+				burst = append(burst, Op{K: "lint", Obj: oi, Reg: 0, Fresh: true, Note: "scale"})
+			}
+			p.Clients[c] = append(burst, p.Clients[c]...)
+		}
+	}
+
 	// ---- rarely taken paths in parallel: for a few lints, objects on which that lint has a
 	// finding are handed to different clients (appended: the draws above stay as they were)
 	{
